@@ -63,6 +63,22 @@ def gen_pva(rng, cls):
     if rng.random() < 0.15:
         head = rng.choice([-1, 1]) * rng.uniform(179.7, 180)
     pitch = rng.uniform(-70, 70) if 'steep' not in cls else rng.choice([-1, 1]) * rng.uniform(70, 85)
+    # the closed ends of the quantified domain themselves (a uniform draw practically never comes within 0.01 deg of them)
+    erng = np.random.Generator(np.random.PCG64(int(rng.integers(0, 2 ** 31))))
+    if erng.random() < 0.15:
+        k = int(erng.integers(0, 6))
+        if k == 0:
+            lat = float(erng.choice([-85.0, 85.0]))
+        elif k == 1 and 'steep' in cls:
+            pitch = float(erng.choice([-85.0, 85.0]))
+        elif k == 2:
+            roll, head = float(erng.choice([-180.0, 180.0, 0.0, 90.0, -90.0])), float(erng.choice([-180.0, 180.0, 0.0, 90.0, -90.0]))
+        elif k == 3:
+            v = np.array([0.0, 0.0, 0.0]) if erng.random() < 0.5 else 300.0 * np.eye(3)[int(erng.integers(0, 3))] * float(erng.choice([-1, 1]))
+        elif k == 4:
+            alt = float(erng.choice([0.0, 20000.0]))
+        else:
+            lat, pitch = 0.0, 0.0
     return pd.Series([lat, lon, alt, *v, roll, pitch, head],
                      index=['lat', 'lon', 'alt'] + VEL + RPH, name=float(rng.uniform(0, 100)))
 
